@@ -106,9 +106,13 @@ package client
 //@   effect recvSinceCheck := recvSinceCheck + 1
 //@   effect lastImplErr := res0
 //@   ensures !sentinel(res0) || res0 == ErrStopReading || res0 == ErrClientInit || res0 == io.EOF
+// implPolls: Poll requests handed to the implementation.
+//@ ghost implPolls int
+//@ func iface Impl.Poll
+//@   effect implPolls := implPolls + 1
+//@   modifies ghost implPolls
 //@ func iface Impl.Close
 //@   effect implCloses := implCloses + 1
-//@ func iface Impl.Poll
 
 // The receive loop reads the close flag after every received message, so at most one
 // further message is processed after Close; it ends with nil on EOF / ErrStopReading /
@@ -183,3 +187,55 @@ package client
 //@   assert at call field CacheClient.clientHandler#0: [application-sees-the-same-notification C01] arg0 == n
 //@   ensures [sync-closes-synced C01] isa(n.(Sync)) ==> closed(c.synced)
 //@   ensures [unknown-kinds-refused C12] !isa(n.(Connected)) && !isa(n.(Error)) && !isa(n.(Update)) && !isa(n.(Delete)) && !isa(n.(Sync)) ==> res0 != nil
+
+// The client-library cache is built with its own tree and an open, unbuffered synced channel.
+//@ func New
+//@   props C01 C18 C12
+//@   ensures [own-tree-and-open-sync-flag C01] res0 != nil && fresh(res0) && res0.BaseClient != nil && fresh(res0.BaseClient) && res0.Tree != nil && fresh(res0.Tree)
+//@     && res0.synced != nil && !closed(res0.synced) && res0.clientHandler == nil
+// Subscribe routes every notification through the cache's own handler (the application's handler, if any, is kept and
+// called afterwards by defaultHandler) and never installs a raw proto handler.
+//@ func (*CacheClient).Subscribe
+//@   props C01 C18 C12
+//@   requires c != nil && c.BaseClient != nil && ctx != nil && recvSinceCheck == 0
+//@   modifies *
+//@   assert at call (*BaseClient).Subscribe#0: [notifications-go-through-the-cache-handler C01] arg0 == c.BaseClient && arg2.ProtoHandler == nil && arg2.NotificationHandler != nil
+//@     && arg2.Target == q.Target && arg2.Type == q.Type && arg2.Queries == q.Queries && arg2.UpdatesOnly == q.UpdatesOnly
+//@   assert at call (*BaseClient).Subscribe#0: [application-handler-kept C01] c.clientHandler == ite(old(q.NotificationHandler) != nil, old(q.NotificationHandler), old(c.clientHandler))
+//@ func (*CacheClient).Synced
+//@   props C01 C12
+//@   requires c != nil
+//@   flagresult
+//@   ensures res0 == c.synced
+// Leaves lists what the tree holds, in the tree's sorted walk order, one entry per stored value.
+//@ ghost leavesSeen int
+//@ func (*CacheClient).Leaves$1
+//@   props C01 C12
+//@   modifies captured pvs, heap([]Leaf), ghost leavesSeen
+//@   effect leavesSeen := leavesSeen + 1
+//@   ensures [every-stored-value-becomes-one-entry C01] isa(value.(TreeVal)) ==> res0 == nil && len(pvs) == old(len(pvs)) + 1
+//@     && view(pvs[len(pvs) - 1].Path) == view(path) && pvs[len(pvs) - 1].Val == value.(TreeVal).Val && pvs[len(pvs) - 1].TS == value.(TreeVal).TS
+//@   ensures [earlier-entries-kept C01] isa(value.(TreeVal)) ==> (forall j int :: 0 <= j && j < old(len(pvs)) ==> pvs[j] == old(pvs[j]))
+//@   ensures [foreign-value-stops-the-walk C12] !isa(value.(TreeVal)) ==> res0 != nil && len(pvs) == old(len(pvs))
+
+// Poll asks the installed implementation for one more snapshot - only for a Poll query, only once an implementation is
+// installed - and reports its error.
+//@ func (*BaseClient).Poll
+//@   props C18 C05 C12
+//@   locks c
+//@   requires c != nil && recvSinceCheck == 0
+//@   modifies ghost implPolls, ghost recvSinceCheck, ghost lastImplErr, ghost implCloses, ghost sawClosed
+//@   assert at call (*BaseClient).run#0: [receives-from-the-installed-implementation-after-asking C18] arg0 == c && arg1 == impl && implPolls == old(implPolls) + 1
+//@   ensures [only-poll-queries-are-polled C18] c.query.Type != Poll ==> res0 != nil && implPolls == old(implPolls)
+//@   ensures [one-poll-request-per-call C18] implPolls <= old(implPolls) + 1 && (res0 == nil ==> implPolls == old(implPolls) + 1 || c.query.Type != Poll)
+// CacheClient.Poll marks the cache synced (never closing the flag twice) before it asks for the next snapshot.
+//@ func (*CacheClient).Poll
+//@   props C01 C18 C12
+//@   requires c != nil && c.BaseClient != nil && c.synced != nil && recvSinceCheck == 0
+//@   modifies ghost implPolls, ghost recvSinceCheck, ghost lastImplErr, ghost implCloses, ghost sawClosed, closed(c.synced)
+//@   ensures [sync-flag-closed C01] closed(c.synced)
+//@ func (*CacheClient).Leaves
+//@   props C01 C12
+//@   requires c != nil && c.Tree != nil
+//@   modifies ghost leavesSeen, heap([]Leaf)
+//@   assert at call (*Tree).WalkSorted#0: [walks-its-own-tree-in-sorted-order C01] arg0 == c.Tree
